@@ -100,6 +100,40 @@ theorem c04_exact_scope (c : ExtCodec E) (tbl : SigTable) (s : Store) (ev : PEve
   rw [pipe_store, (armed_iff _ _).2 ⟨hpr, hok⟩]
   simp only [if_true, pruneBelow, inLog]
 
+/-- **The prune stage is armed only behind a validated operation.** `pipelineStep` runs
+    `pruneBelow` exactly when the event carries the flag and the ingest status is *completed* —
+    `inserted`, or `already` (a duplicate). Both require the **delivered** operation itself to have
+    passed `validate_operation`: a duplicate answer is given only after validation, for an id that
+    is stored. An operation that merely carries a stored id (the head of the victim's log, say)
+    but does not validate is `failed`, never `already`. -/
+theorem c04_completed_requires_valid (c : ExtCodec E) (tbl : SigTable) (s : Store) (ev : PEvent E)
+    (hc : ∀ e, (pipelineStep c tbl s ev).2.1 ≠ .failed e) :
+    validateOperation c tbl ev.o.op = .ok () ∧
+    ((pipelineStep c tbl s ev).2.1 = .already → hasOp s ev.o.op.id = true) ∧
+    ((pipelineStep c tbl s ev).2.2 ≠ .noop → ev.prune = true) := by
+  rw [pipe_out] at hc ⊢
+  refine ⟨?_, ?_, ?_⟩
+  · generalize hg : ingestStep c tbl s ev.o ev.log ev.topic ev.prune = g at hc
+    rcases deliver_cases c tbl s ev.o ev.log ev.topic ev.prune g hg with ⟨_, e, hf⟩ | ⟨_, _, _, hv⟩ | ⟨_, _, _, hv, _⟩
+    · exact absurd hf (hc e)
+    · exact hv
+    · exact hv
+  · generalize hg : ingestStep c tbl s ev.o ev.log ev.topic ev.prune = g at hc
+    intro ha
+    rcases deliver_cases c tbl s ev.o ev.log ev.topic ev.prune g hg with ⟨_, e, hf⟩ | ⟨_, _, hh, _⟩ | ⟨hi, _⟩
+    · exact absurd hf (hc e)
+    · exact hh
+    · rw [hi] at ha; cases ha
+  · intro hn
+    cases hp : ev.prune with
+    | true => rfl
+    | false =>
+      exfalso; apply hn
+      simp only [pipelineStep, pipelineStepWith]
+      have : armedAfter true ev.prune (ingestStepWith validatePrunableBacklink c tbl s ev.o ev.log ev.topic ev.prune).2 = false := by
+        rw [hp]; cases (ingestStepWith validatePrunableBacklink c tbl s ev.o ev.log ev.topic false).2 <;> rfl
+      simp [this]
+
 /-- Without the prune flag nothing is ever deleted. -/
 theorem c04_no_flag_no_delete (c : ExtCodec E) (tbl : SigTable) (s : Store) (ev : PEvent E)
     (hpr : ev.prune = false) (r : Row) (hr : r ∈ s.rows) : r ∈ (pipelineStep c tbl s ev).1.rows := by
